@@ -39,7 +39,7 @@ SUFFIX = "fasta"
 def bounds(tier):
     return {
         "quick": {"ids": ["a", "ba", "a.fasta", "fasta1"], "payloads": ["d1", "d2"], "depth": 3, "init_modes": ["w", "a"]},
-        "thorough": {"ids": ["a", "ba", "a.fasta", "fasta1", "b", "a.b"], "payloads": ["d1", "d2"], "depth": 3, "init_modes": ["w", "a"]},
+        "thorough": {"ids": ["a", "ba", "a.fasta", "fasta1", "a.b", "a.v2.fasta", "a.v2.json"], "payloads": ["d1", "d2"], "depth": 3, "init_modes": ["w", "a"]},
     }[tier]
 
 
@@ -59,8 +59,12 @@ class Model:
         self.last_log = None  # (id, data)
 
     def canon(self, ident):
-        if self.kind == "dir" and ident.endswith("." + SUFFIX):
-            return ident[: -len(SUFFIX) - 1]
+        if self.kind == "dir":
+            # the directory store identifies a record by its name without the store suffix; a not-completed record may be
+            # addressed with the .json suffix its file carries (this is what the writer apps pass)
+            for sfx in ("." + SUFFIX, ".json"):
+                if ident.endswith(sfx):
+                    return ident[: -len(sfx)]
         return ident
 
     def copy(self):
@@ -405,12 +409,14 @@ def alphabet(b):
     ops = []
     for i in b["ids"]:
         for d in b["payloads"]:
-            ops.append(("write", i, d))
+            if not i.endswith(".json"):  # the .json form only addresses not-completed records
+                ops.append(("write", i, d))
             ops.append(("write_nc", i, d))
     ops.append(("write_log", "run.log", "log text"))
     ops.append(("drop_all",))
     for i in b["ids"]:
-        ops.append(("drop", i))
+        if not i.endswith(".json"):  # drop_not_completed takes the record's identifier, not the file name of its json
+            ops.append(("drop", i))
     for mode in ("r", "a", "w"):
         ops.append(("reopen", mode))
     return ops
